@@ -45,12 +45,14 @@ structure Inv (s : State) : Prop where
   biLt : B s < s.chunks.length
   lenLt : s.chunks.length < 2 ^ 31
   chunkLt : ∀ c ∈ s.chunks, c < 2 ^ 63
-  toAdd : ∀ (t : Nat) (th : Thread) (sz : W), s.threads[t]? = some th → th.pc = .toAdd sz → 0 < sz.toNat ∧ sz = th.op.inner
+  idleDefault : ∀ (t : Nat) (th : Thread), s.threads[t]? = some th → th.pc = .idle → th = {}
+  toAdd : ∀ (t : Nat) (th : Thread) (sz : W), s.threads[t]? = some th → th.pc = .toAdd sz →
+    0 < sz.toNat ∧ sz = th.op.inner ∧ allocTooBig sz = false
   needGrow : ∀ (t : Nat) (th : Thread) (sz b : W), s.threads[t]? = some th → th.pc = .needGrow sz b →
-    0 < sz.toNat ∧ sz.toNat < 2 ^ 32 ∧ sz = th.op.inner
+    0 < sz.toNat ∧ sz.toNat < 2 ^ 32 ∧ sz = th.op.inner ∧ allocTooBig sz = false
   added : ∀ (t : Nat) (th : Thread) (sz pos : W), s.threads[t]? = some th → th.pc = .added sz pos →
     0 < sz.toNat ∧ sz = th.op.inner ∧ (parse pos).1.toNat ≤ B s ∧ sz.toNat ≤ (parse pos).2.toNat ∧
-    ((parse pos).1.toNat = B s → (parse pos).2.toNat ≤ P s)
+    ((parse pos).1.toNat = B s → (parse pos).2.toNat ≤ P s) ∧ allocTooBig sz = false
   grantIn : ∀ g ∈ s.grants, g.reg.chunk ≤ B s ∧
     g.reg.off + g.reg.len ≤ chunkLen s.chunks g.reg.chunk ∧ 0 < g.reg.len ∧
     (g.reg.chunk = B s → g.reg.off + g.reg.len ≤ P s) ∧ g.reg.len = g.op.inner.toNat
@@ -66,12 +68,16 @@ theorem inv_init (c0 n : Nat) (h : c0 < 2 ^ 63) : Inv (init c0 n) := by
     have := List.mem_of_getElem? ht
     simp only [init, List.mem_replicate] at this
     rw [this.2]
-  refine ⟨?_, ?_, ?_, ?_, ?_, ?_, ?_, ?_, ?_, ?_⟩
+  refine ⟨?_, ?_, ?_, ?_, ?_, ?_, ?_, ?_, ?_, ?_, ?_⟩
   · simp [B_def, init, numSlots]
   · simp [init, numSlots]
   · intro c hc
     simp only [init, List.mem_cons, List.mem_replicate] at hc
     omega
+  · intro t th ht _
+    have := List.mem_of_getElem? ht
+    simp only [init, List.mem_replicate] at this
+    exact this.2
   · intro t th sz ht hp; rw [hidle t th ht] at hp; cases hp
   · intro t th sz b ht hp; rw [hidle t th ht] at hp; cases hp
   · intro t th sz pos ht hp; rw [hidle t th ht] at hp; cases hp
@@ -87,16 +93,21 @@ theorem Inv.congr {s s' : State} (h1 : s'.compIdx = s.compIdx) (h2 : s'.chunks =
   obtain ⟨c', cs', th', g', l'⟩ := s'
   simp only at h1 h2 h3 h4
   subst h1 h2 h3 h4
-  exact ⟨h.biLt, h.lenLt, h.chunkLt, h.toAdd, h.needGrow, h.added, h.grantIn, h.grantDisj,
+  exact ⟨h.biLt, h.lenLt, h.chunkLt, h.idleDefault, h.toAdd, h.needGrow, h.added, h.grantIn, h.grantDisj,
     h.addedGrant, h.addedAdded⟩
 
 /-- Replacing one thread by one that is not between add and check. -/
 theorem inv_setThread {s : State} (hI : Inv s) (t : Nat) (x : Thread)
-    (hA : ∀ sz, x.pc = .toAdd sz → 0 < sz.toNat ∧ sz = x.op.inner)
-    (hG : ∀ sz b, x.pc = .needGrow sz b → 0 < sz.toNat ∧ sz.toNat < 2 ^ 32 ∧ sz = x.op.inner)
-    (hD : ∀ sz pos, x.pc ≠ .added sz pos) :
+    (hA : ∀ sz, x.pc = .toAdd sz → 0 < sz.toNat ∧ sz = x.op.inner ∧ allocTooBig sz = false)
+    (hG : ∀ sz b, x.pc = .needGrow sz b →
+      0 < sz.toNat ∧ sz.toNat < 2 ^ 32 ∧ sz = x.op.inner ∧ allocTooBig sz = false)
+    (hD : ∀ sz pos, x.pc ≠ .added sz pos) (hDf : x.pc = .idle → x = {}) :
     Inv { s with threads := s.threads.set t x } := by
-  refine ⟨hI.biLt, hI.lenLt, hI.chunkLt, ?_, ?_, ?_, hI.grantIn, hI.grantDisj, ?_, ?_⟩
+  refine ⟨hI.biLt, hI.lenLt, hI.chunkLt, ?_, ?_, ?_, ?_, hI.grantIn, hI.grantDisj, ?_, ?_⟩
+  · intro u uh hu hp
+    rcases get_set hu with ⟨_, rfl⟩ | ⟨_, hu'⟩
+    · exact hDf hp
+    · exact hI.idleDefault u uh hu' hp
   · intro u uh sz hu hp
     rcases get_set hu with ⟨_, rfl⟩ | ⟨_, hu'⟩
     · exact hA sz hp
@@ -125,12 +136,13 @@ theorem inv_start {s s' : State} {t : Nat} {op : Op} (hI : Inv s) (h : step s (.
   obtain ⟨th, hth, hpc, h1 | h1 | h1⟩ := step_start h
   · obtain ⟨_, rfl⟩ := h1; exact hI
   · obtain ⟨_, _, rfl⟩ := h1; exact hI
-  · obtain ⟨_, hz, rfl⟩ := h1
+  · obtain ⟨hb, hz, rfl⟩ := h1
     refine inv_setThread hI t _ ?_ (by intro sz b h; cases h) (by intro sz pos h; cases h)
+      (by intro h; cases h)
     intro sz h
     simp only [Pc.toAdd.injEq] at h
     subst h
-    exact ⟨zero_false hz, rfl⟩
+    exact ⟨zero_false hz, rfl, hb⟩
 
 theorem add_parse (c sz : W) (h : c.toNat % 4294967296 + sz.toNat < 4294967296) :
     (parse (c + sz)).1.toNat = c.toNat / 4294967296 ∧
@@ -148,7 +160,7 @@ theorem inv_add {s s' : State} {t : Nat} (hI : Inv s) (hN : NoCarry s (.add t))
   rw [addend_eq]
   have hpar := add_parse s.compIdx sz (by rw [← P_def]; exact hnc)
   rw [← B_def, ← P_def] at hpar
-  obtain ⟨hsz0, hszop⟩ := hI.toAdd t th sz hth hpc
+  obtain ⟨hsz0, hszop, htb⟩ := hI.toAdd t th sz hth hpc
   -- facts about the new state
   have hB : B { s with compIdx := s.compIdx + sz,
                        threads := s.threads.set t { th with pc := .added sz (s.compIdx + sz) } } = B s := by
@@ -168,13 +180,17 @@ theorem inv_add {s s' : State} {t : Nat} (hI : Inv s) (hN : NoCarry s (.add t))
   have hnewAdded : ∀ (u : Nat) (uh : Thread) (sz' pos' : W), s.threads[u]? = some uh → uh.pc = .added sz' pos' →
       Disj (ivl sz (s.compIdx + sz)) (ivl sz' pos') := by
     intro u uh sz' pos' hu hq
-    obtain ⟨_, _, h3, h4, h5⟩ := hI.added u uh sz' pos' hu hq
+    obtain ⟨_, _, h3, h4, h5, _⟩ := hI.added u uh sz' pos' hu hq
     unfold Disj ivl
     simp only [hpar.1, hpar.2]
     by_cases hc : (parse pos').1.toNat = B s
     · have := h5 hc; omega
     · exact Or.inl (fun e => hc e.symm)
-  refine ⟨by rw [hB]; exact hI.biLt, hI.lenLt, hI.chunkLt, ?_, ?_, ?_, ?_, hI.grantDisj, ?_, ?_⟩
+  refine ⟨by rw [hB]; exact hI.biLt, hI.lenLt, hI.chunkLt, ?_, ?_, ?_, ?_, ?_, hI.grantDisj, ?_, ?_⟩
+  · intro u uh hu hp
+    rcases get_set hu with ⟨_, rfl⟩ | ⟨_, hu'⟩
+    · cases hp
+    · exact hI.idleDefault u uh hu' hp
   · intro u uh sz' hu hp
     rcases get_set hu with ⟨_, rfl⟩ | ⟨_, hu'⟩
     · cases hp
@@ -188,9 +204,9 @@ theorem inv_add {s s' : State} {t : Nat} (hI : Inv s) (hN : NoCarry s (.add t))
     rcases get_set hu with ⟨_, rfl⟩ | ⟨_, hu'⟩
     · simp only [Pc.added.injEq] at hp
       obtain ⟨rfl, rfl⟩ := hp
-      refine ⟨hsz0, hszop, ?_, ?_, ?_⟩ <;> omega
-    · obtain ⟨h1, h2, h3, h4, h5⟩ := hI.added u uh sz' pos' hu' hp
-      refine ⟨h1, h2, h3, h4, fun e => ?_⟩
+      refine ⟨hsz0, hszop, ?_, ?_, ?_, htb⟩ <;> omega
+    · obtain ⟨h1, h2, h3, h4, h5, h6⟩ := hI.added u uh sz' pos' hu' hp
+      refine ⟨h1, h2, h3, h4, fun e => ?_, h6⟩
       have := h5 e; omega
   · intro g hg
     rw [hB, hP]
@@ -254,22 +270,24 @@ theorem checkPos_slice {cs : List Nat} {sz pos : W} {r : Region} (h : checkPos c
 theorem inv_check {s s' : State} {t : Nat} (hI : Inv s) (h : step s (.check t) = some s') : Inv s' := by
   obtain ⟨th, sz, pos, hth, hpc, h1 | h1 | h1⟩ := step_check h
   · obtain ⟨b, hb, rfl⟩ := h1
-    obtain ⟨a1, a2, a3, a4, a5⟩ := hI.added t th sz pos hth hpc
+    obtain ⟨a1, a2, a3, a4, a5, a6⟩ := hI.added t th sz pos hth hpc
     refine inv_setThread hI t _ (by intro sz h; cases h) ?_ (by intro sz pos h; cases h)
+      (by intro h; cases h)
     intro sz' b' h
     simp only [Pc.needGrow.injEq] at h
     obtain ⟨rfl, _⟩ := h
     have := parse_snd_lt pos
-    exact ⟨a1, by omega, a2⟩
+    exact ⟨a1, by omega, a2, a6⟩
   · obtain ⟨_, rfl⟩ := h1
-    exact inv_setThread hI t _ (by intro sz h; cases h) (by intro sz b h; cases h) (by intro sz pos h; cases h)
+    exact inv_setThread hI t _ (by intro sz h; cases h) (by intro sz b h; cases h)
+      (by intro sz pos h; cases h) (by intro h; cases h)
   · obtain ⟨r, hr, rfl⟩ := h1
-    obtain ⟨a1, a2, a3, a4, a5⟩ := hI.added t th sz pos hth hpc
+    obtain ⟨a1, a2, a3, a4, a5, a6⟩ := hI.added t th sz pos hth hpc
     obtain ⟨rfl, hin⟩ := checkPos_slice hr a4 hI.chunkLt
-    have hbase := inv_setThread hI t { th with pc := .idle } (by intro sz h; cases h)
-      (by intro sz b h; cases h) (by intro sz pos h; cases h)
-    refine ⟨hbase.biLt, hbase.lenLt, hbase.chunkLt, hbase.toAdd, hbase.needGrow, hbase.added, ?_, ?_, ?_,
-      hbase.addedAdded⟩
+    have hbase := inv_setThread hI t {} (by intro sz h; cases h)
+      (by intro sz b h; cases h) (by intro sz pos h; cases h) (fun _ => rfl)
+    refine ⟨hbase.biLt, hbase.lenLt, hbase.chunkLt, hbase.idleDefault, hbase.toAdd, hbase.needGrow,
+      hbase.added, ?_, ?_, ?_, hbase.addedAdded⟩
     · intro g hg
       rcases List.mem_cons.mp hg with rfl | hg'
       · refine ⟨a3, ?_, ?_, ?_, ?_⟩
@@ -300,18 +318,21 @@ theorem inv_check {s s' : State} {t : Nat} (hI : Inv s) (h : step s (.check t) =
 theorem inv_grow {s s' : State} {t : Nat} (hI : Inv s) (h : step s (.grow t) = some s') : Inv s' := by
   obtain ⟨_, th, sz, b, hth, hpc, h1 | h1 | h1 | h1⟩ := step_grow h
   · obtain ⟨_, rfl⟩ := h1
-    obtain ⟨g1, g2, g3⟩ := hI.needGrow t th sz b hth hpc
+    obtain ⟨g1, g2, g3, g4⟩ := hI.needGrow t th sz b hth hpc
     refine inv_setThread hI t _ ?_ (by intro sz b h; cases h) (by intro sz pos h; cases h)
-    intro sz' h; simp only [Pc.toAdd.injEq] at h; subst h; exact ⟨g1, g3⟩
+      (by intro h; cases h)
+    intro sz' h; simp only [Pc.toAdd.injEq] at h; subst h; exact ⟨g1, g3, g4⟩
   · obtain ⟨_, _, rfl⟩ := h1
     refine Inv.congr (s := { s with threads := s.threads.set t { th with pc := .panicked .outOfSlots } })
       rfl rfl rfl rfl ?_
-    exact inv_setThread hI t _ (by intro sz h; cases h) (by intro sz b h; cases h) (by intro sz pos h; cases h)
+    exact inv_setThread hI t _ (by intro sz h; cases h) (by intro sz b h; cases h)
+      (by intro sz pos h; cases h) (by intro h; cases h)
   · obtain ⟨_, _, rfl⟩ := h1
     refine Inv.congr (s := { s with threads := s.threads.set t { th with pc := .hung } }) rfl rfl rfl rfl ?_
-    exact inv_setThread hI t _ (by intro sz h; cases h) (by intro sz b h; cases h) (by intro sz pos h; cases h)
+    exact inv_setThread hI t _ (by intro sz h; cases h) (by intro sz b h; cases h)
+      (by intro sz pos h; cases h) (by intro h; cases h)
   · obtain ⟨cs, hm, hadd, rfl⟩ := h1
-    obtain ⟨g1, g2, g3⟩ := hI.needGrow t th sz b hth hpc
+    obtain ⟨g1, g2, g3, g4⟩ := hI.needGrow t th sz b hth hpc
     have hb : bi s = b := moved_false hm
     have hbB : b.toNat = B s := by rw [← hb]; rfl
     have hBlt := hI.biLt
@@ -325,12 +346,12 @@ theorem inv_grow {s s' : State} {t : Nat} (hI : Inv s) (h : step s (.grow t) = s
         show (parse (allocStore b)).1.toNat = _
         omega
       have hP' : P { s with chunks := cs, compIdx := allocStore b } = 0 := hst.2
-      refine ⟨by rw [hB']; show B s + 1 < cs.length; omega, by show cs.length < _; omega, c4, hI.toAdd,
-        hI.needGrow, ?_, ?_, hI.grantDisj, hI.addedGrant, hI.addedAdded⟩
+      refine ⟨by rw [hB']; show B s + 1 < cs.length; omega, by show cs.length < _; omega, c4,
+        hI.idleDefault, hI.toAdd, hI.needGrow, ?_, ?_, hI.grantDisj, hI.addedGrant, hI.addedAdded⟩
       · intro u uh sz' pos' hu hp
-        obtain ⟨h1, h2, h3, h4, h5⟩ := hI.added u uh sz' pos' hu hp
+        obtain ⟨h1, h2, h3, h4, h5, h6⟩ := hI.added u uh sz' pos' hu hp
         rw [hB']
-        exact ⟨h1, h2, by omega, h4, fun e => by omega⟩
+        exact ⟨h1, h2, by omega, h4, fun e => by omega, h6⟩
       · intro g hg
         obtain ⟨h1, h2, h3, h4, h5⟩ := hI.grantIn g hg
         rw [hB']
@@ -338,14 +359,14 @@ theorem inv_grow {s s' : State} {t : Nat} (hI : Inv s) (h : step s (.grow t) = s
         show _ ≤ chunkLen cs _
         rw [c3 _ (by omega)]; exact h2
     have := inv_setThread hmid t { th with pc := .toAdd sz } (by
-      intro sz' h; simp only [Pc.toAdd.injEq] at h; subst h; exact ⟨g1, g3⟩)
-      (by intro sz b h; cases h) (by intro sz pos h; cases h)
+      intro sz' h; simp only [Pc.toAdd.injEq] at h; subst h; exact ⟨g1, g3, g4⟩)
+      (by intro sz b h; cases h) (by intro sz pos h; cases h) (by intro h; cases h)
     exact this
 
 theorem inv_reset {s s' : State} (hI : Inv s) (h : step s .reset = some s') : Inv s' := by
   obtain ⟨hidle, rfl⟩ := step_reset h
   have hB : B { s with compIdx := 0#64, grants := [] } = 0 := by simp [B_def]
-  refine ⟨?_, hI.lenLt, hI.chunkLt, hI.toAdd, hI.needGrow, ?_, ?_, ?_, ?_, hI.addedAdded⟩
+  refine ⟨?_, hI.lenLt, hI.chunkLt, hI.idleDefault, hI.toAdd, hI.needGrow, ?_, ?_, ?_, ?_, hI.addedAdded⟩
   · rw [hB]; have := hI.biLt; show 0 < s.chunks.length; omega
   · intro u uh sz pos hu hp
     rw [idle_of_allIdle hidle hu] at hp; cases hp
@@ -356,7 +377,7 @@ theorem inv_reset {s s' : State} (hI : Inv s) (h : step s .reset = some s') : In
 
 theorem inv_trim {s s' : State} {mx : W} (hI : Inv s) (h : step s (.trim mx) = some s') : Inv s' := by
   obtain ⟨hidle, rfl⟩ := step_trim h
-  refine ⟨?_, ?_, ?_, hI.toAdd, hI.needGrow, hI.added, ?_, ?_, ?_, hI.addedAdded⟩
+  refine ⟨?_, ?_, ?_, hI.idleDefault, hI.toAdd, hI.needGrow, hI.added, ?_, ?_, ?_, hI.addedAdded⟩
   · show B s < (trimTo mx s.chunks).length
     rw [trimTo, trimFrom_length]; exact hI.biLt
   · show (trimTo mx s.chunks).length < _
